@@ -1,4 +1,6 @@
 import VermouthModel.C07
+import VermouthModel.C07_Cli
+import Generated.C07Names
 open Proto C07
 
 /-
@@ -6,6 +8,15 @@ requests
   run <files> <ops>                       -> per op: [ res pending snapshot ]
   cli <level> <counter> <specs> <files> <opens>  -> exit code, pending, snapshot
   free <files> <path>                     -> rendered first free path
+  cliout <level> <counter> <specs> <files> <options> <facts> <contents>
+                                          -> exit code, leftover, [ name mode ] of the pending table at the gate, snapshot
+  countby <counter> <level|-> <xtype|->   -> CountingHandler.number_of_counts_by
+  rawfin <files> <pending> <fuel|->       -> write() on a pending table given as is (white box): error branch, rest, snapshot
+  rawclose <files> <pending>              -> close() on a pending table given as is: snapshot
+options := [ x|- o|- xname|- sep go goWrite waterBias dssp haveMdtraj verbosity graph|- repair|- canon|- ]
+           go := 0 off | 1 internal | 2 file ; goWrite := [ 0 ] | [ 1 ] | [ 2 path ] ; dssp := 0 off | 1 flag | 2 exe
+facts   := [ [ class.. ] hasAtomtypes hasNonbond [ [ xchain.. ].. ] [ tmppath.. ] ]
+pending := [ [ tmpno path mode ] .. ]
 path   := [ 0 xname ] | [ 1 path n ] | [ 2 k ]
 file   := [ path xcontent ]
 op     := [ 0 path mode xdata ] | [ 1 fuel|- ] | [ 2 ]
@@ -76,6 +87,42 @@ def specOf (t : Tok) : Option C08.Spec := do
   | [ty, c] => pure (← ty.optStr?, ← c.optInt?)
   | _ => none
 
+def optPathOf (t : Tok) : Option (Option Path) :=
+  match t with
+  | Tok.none => some none
+  | t => (pathOf t).map some
+
+def boolOf (t : Tok) : Option Bool := do
+  match ← t.nat? with
+  | 0 => pure false | 1 => pure true | _ => none
+
+def optionsOf (t : Tok) : Option Options := do
+  match ← t.list? with
+  | [x, o, nm, sep, go, gw, wb, ds, hm, v, g, r, c] =>
+      let go' ← (match ← go.nat? with | 0 => some GoOpt.off | 1 => some GoOpt.internal | 2 => some GoOpt.file | _ => none)
+      let gw' ← (match ← gw.list? with
+                 | [Tok.int 0] => some GoWrite.off
+                 | [Tok.int 1] => some GoWrite.const
+                 | [Tok.int 2, p] => (pathOf p).map GoWrite.named
+                 | _ => none)
+      let ds' ← (match ← ds.nat? with | 0 => some DsspOpt.off | 1 => some DsspOpt.flag | 2 => some DsspOpt.exe | _ => none)
+      pure { outpath := ← optPathOf x, topPath := ← optPathOf o, molname := ← nm.optStr?, sep := ← boolOf sep, go := go',
+             goWrite := gw', waterBias := ← boolOf wb, dssp := ds', haveMdtraj := ← boolOf hm, verbosity := ← v.nat?,
+             writeGraph := ← optPathOf g, writeRepair := ← optPathOf r, writeCanon := ← optPathOf c }
+  | _ => none
+
+def factsOf (t : Tok) : Option Facts := do
+  match ← t.list? with
+  | [mc, ha, hn, chains, tmps] =>
+      pure { molClass := ← nats? mc, hasAtomtypes := ← boolOf ha, hasNonbond := ← boolOf hn,
+             dsspChains := ← (← chains.list?).mapM strs?, dsspTmp := ← (← tmps.list?).mapM pathOf }
+  | _ => none
+
+def pendingOf (t : Tok) : Option Entry := do
+  match ← t.list? with
+  | [k, p, m] => pure { tmp := ← k.nat?, dest := ← pathOf p, mode := ← modeOf m }
+  | _ => none
+
 def runAll (st : State) : List Op → List String
   | [] => []
   | o :: rest =>
@@ -99,6 +146,39 @@ def handle (_ : Unit) (toks : List Tok) : Unit × String :=
         -- the temporary files are not part of the observable result
         let user := st.fs.filter (fun kv => !kv.1.isTmp)
         pure (encList [encNat (exitStatus code), encInt (C08.leftover es ss level), snapshot user])
+    | [Tok.str "cliout", lvl, counter, specs, files, opts, facts, conts] => do
+        let level ← lvl.nat?
+        let es ← (← counter.list?).mapM entryOf
+        let ss ← (← specs.list?).mapM (fun g => do (← g.list?).mapM specOf)
+        let fs ← (← files.list?).mapM fileOf
+        let o ← optionsOf opts
+        let f ← factsOf facts
+        let cont ← (← conts.list?).mapM fileOf
+        let (st, code) := cliOutRun generatedNames fs o f cont es ss level
+        let pend := cliPendingAtGate generatedNames fs o f cont
+        let user := st.fs.filter (fun kv => !kv.1.isTmp)
+        pure (encList [encNat (exitStatus code), encInt (C08.leftover es ss level),
+                       encList (pend.map fun e => encList [encStr (render e.dest), encNat (modeNo e.mode)]),
+                       snapshot user])
+    | [Tok.str "countby", counter, lvl, ty] => do
+        let es ← (← counter.list?).mapM entryOf
+        let l ← (match lvl with | Tok.none => some none | t => t.nat?.map some)
+        pure (encNat (countBy es l (← ty.optStr?)))
+    | [Tok.str "rawfin", files, pend, fuel] => do
+        let fs ← (← files.list?).mapM fileOf
+        let l ← (← pend.list?).mapM pendingOf
+        let k ← (match fuel with | Tok.none => some (3 * l.length) | t => t.nat?)
+        let r := finalizeFuel k fs l
+        -- which entry, if any, made write() raise: the first one whose stored mode has none of a, w, +
+        let bad := (l.take (l.length - r.2.length)).find? (fun e => (entrySteps [] e).isNone)
+        let res := match bad with
+          | some e => if e.mode.hasR then "assertion" else "keyerror"
+          | none => "ok"
+        pure (encList [encStr res, encPending r.2, snapshot r.1])
+    | [Tok.str "rawclose", files, pend] => do
+        let fs ← (← files.list?).mapM fileOf
+        let l ← (← pend.list?).mapM pendingOf
+        pure (snapshot (closeFs fs l))
     | [Tok.str "free", files, p] => do
         let fs ← (← files.list?).mapM fileOf
         pure (encStr (render (firstFree fs (← pathOf p))))
